@@ -102,10 +102,13 @@ func answering(k int) {
 		bad = true
 	}
 	for i := 0; i < 40 && !bad; i++ {
+		spa := [4]byte{10, 0, 0, byte(20 + r.Intn(6))}
 		var sha [6]byte
 		copy(sha[:], r.Bytes(6))
 		sha[0] &^= 1
-		spa := [4]byte{10, 0, 0, byte(20 + r.Intn(6))}
+		if r.Bool() { // the neighbour's usual, unchanged link address
+			sha = [6]byte{2, 9, 9, 9, 9, spa[3]}
+		}
 		targets := [][4]byte{ip4b(wire.AddrA4), {10, 0, 0, 7}, {10, 0, 0, 99}, {192, 168, 1, 1}, spa}
 		tpa := targets[r.Intn(len(targets))]
 		own := tpa == ip4b(wire.AddrA4) || tpa == [4]byte{10, 0, 0, 7}
@@ -217,6 +220,10 @@ func answering(k int) {
 			// expiry: nothing older than the age limit may be reported
 			for addr, m := range ref {
 				if time.Since(m.at) > 61*time.Second {
+					if r.Bool() {
+						delete(ref, addr) // not looked up: the next thing the cache hears may be a re-announcement
+						continue
+					}
 					if la, err := x.lookup(addr); err == nil {
 						viol("cache/reported-after-expiry", fmt.Sprintf("neighbour %v -> %x still reported %v after it was learned (age limit 1 min)", []byte(addr), []byte(la), time.Since(m.at)))
 					} else {
@@ -532,6 +539,84 @@ func overflow(k int) {
 	run.Case(fw.Hash("ovf", n/50), true)
 }
 
+// ---- (e) waiting while the cache ring wraps around -----------------------------------
+
+func waitWithChurn(k int) {
+	r := fw.NewRand(run.Seed, "C12", "churn", k)
+	x := newHost()
+	if x == nil {
+		return
+	}
+	kip := [4]byte{10, 0, 0, 50}
+	mac1, mac2 := [6]byte{2, 1, 1, 1, 1, 1}, [6]byte{2, 2, 2, 2, 2, 2}
+	if r.Bool() {
+		mac2 = mac1
+	}
+	nh := tcpip.Address(kip[:])
+	x.arp(2, mac1, kip, smac, ip4b(wire.AddrA4))
+	pre := r.Intn(300)
+	for i := 0; i < pre; i++ {
+		x.arp(2, [6]byte{2, 3, byte(i >> 8), byte(i), 0, 1}, [4]byte{10, 3, byte(i / 250), byte(i % 250)}, smac, ip4b(wire.AddrA4))
+	}
+	time.Sleep(61 * time.Second) // K's entry expires
+	rawpeer.Settle()
+	x.take()
+	useTCP := r.Chance(1, 3)
+	wq := &waiter.Queue{}
+	var ep tcpip.Endpoint
+	var ch <-chan struct{}
+	payload := []byte("churn")
+	start := time.Now()
+	if useTCP {
+		ep, _ = x.h.S.NewEndpoint(tcp.ProtocolNumber, ipv4.ProtocolNumber, wq)
+		ep.Connect(tcpip.FullAddress{Addr: nh, Port: 80})
+	} else {
+		ep, _ = x.h.S.NewEndpoint(udp.ProtocolNumber, ipv4.ProtocolNumber, wq)
+		_, c, e := ep.Write(tcpip.SlicePayload(payload), tcpip.WriteOptions{To: &tcpip.FullAddress{Addr: nh, Port: 9}})
+		if e != tcpip.ErrWouldBlock || c == nil {
+			run.Count("churn_skipped", 1)
+			return
+		}
+		ch = c
+	}
+	defer ep.Close()
+	// other neighbours announce themselves while K is being resolved: the ring wraps
+	n := 500 + r.Intn(60) - pre
+	for i := 0; i < n; i++ {
+		x.arp(2, [6]byte{2, 4, byte(i >> 8), byte(i), 0, 1}, [4]byte{10, 4, byte(i / 250), byte(i % 250)}, smac, ip4b(wire.AddrA4))
+	}
+	time.Sleep(time.Duration(100+r.Intn(700)) * time.Millisecond)
+	x.arp(2, mac2, kip, smac, ip4b(wire.AddrA4)) // K answers
+	rawpeer.Settle()
+	proceeded := false
+	for step := 0; step < 80 && !proceeded; step++ {
+		time.Sleep(100 * time.Millisecond)
+		rawpeer.Settle()
+		if !useTCP && ch != nil {
+			select {
+			case <-ch:
+				ch = nil
+				ep.Write(tcpip.SlicePayload(payload), tcpip.WriteOptions{To: &tcpip.FullAddress{Addr: nh, Port: 9}})
+			default:
+			}
+		}
+		for _, o := range x.take() {
+			if o.proto == uint16(ipv4.ProtocolNumber) && bytes.Equal(o.remote, mac2[:]) {
+				proceeded = true
+			}
+		}
+	}
+	failed := false
+	if useTCP {
+		failed = ep.GetSockOpt(tcpip.ErrorOption{}) != nil
+	}
+	run.Count("churn_scenarios", 1)
+	run.Case(fw.Hash("churn", useTCP, pre/50, n/20), true)
+	if !proceeded && !failed {
+		run.Violation("C12/wait/stuck-after-cache-wraparound", fmt.Sprintf("neighbour %v answered %v after the operation started waiting, but 8 s later the waiting %s has neither put its packet on the wire nor failed (other neighbours announced: %d before, %d during the wait; cache size 512)", kip, time.Since(start), map[bool]string{true: "TCP connect", false: "UDP write"}[useTCP], pre, n), map[string]interface{}{"k": k, "pre": pre, "during": n, "tcp": useTCP})
+	}
+}
+
 func child(t *testing.T) {
 	var lo, hi int
 	fmt.Sscan(os.Getenv("VERIF_RANGE"), &lo, &hi)
@@ -545,7 +630,11 @@ func child(t *testing.T) {
 			case 6:
 				ndp(k)
 			case 7:
-				overflow(k)
+				if k%16 == 7 {
+					overflow(k)
+				} else {
+					waitWithChurn(k)
+				}
 			}
 		}
 		os.Exit(run.Finish("", nil))
